@@ -30,7 +30,8 @@
     - [glog]    : every (mailbox name, UIDVALIDITY, UID, instance) that was ever
                   visible to a client: appended when a link is inserted and when
                   links come under a new name (RENAME) — the "assigned" log of C03.
-    - [gused]   : every (name, UIDVALIDITY) pair a mailbox row ever carried.
+    - [gused]   : every (name, UIDVALIDITY) pair a mailbox row ever carried (its
+                  maximum UIDVALIDITY models the row of table uid_validity_seq).
 
     No proofs in this file. *)
 From Coq Require Import String Ascii List Bool ZArith.
@@ -120,9 +121,20 @@ Definition links_sorted (s : store) (mb : Z) : list link := sort_by_uid (links_i
 
 (** ---- row-level primitives ---------------------------------------------- *)
 
+(** db.nextUIDValidityPerUser (fixes/c03-uidvalidity-seq.patch): the clock reading
+    [t], but strictly above every UIDVALIDITY this store has handed out before.
+    The one-row table uid_validity_seq holds that high-water mark; in the model it
+    is the maximum over [gused] (which therefore is no longer purely ghost: its
+    maximum is real state; a store without a row starts from MAX(uid_validity) of
+    its mailboxes, and every mailbox's pair is in [gused]). *)
+Definition vhigh (s : store) : Z := fold_right Z.max 0 (map snd (gused s)).
+Definition next_validity (s : store) (t : Z) : Z := Z.max t (vhigh s + 1).
+
 (** db.CreateMailboxPerUser: empty name -> error; UNIQUE(user_id,name) ->
-    "mailbox already exists"; else a row (validity = t, uid_next = 1).
-    Returns the new store and the new rowid. *)
+    "mailbox already exists"; else a row (validity = next_validity, uid_next = 1).
+    Returns the new store and the new rowid.  (In the Go code the stamp is taken
+    before the INSERT, so a UNIQUE failure burns a stamp; every modelled caller
+    checks the name first, so that branch is reachable only under concurrency.) *)
 Definition create_mailbox_row (s : store) (name : str) (t : Z) : option (store * Z) :=
   match name with
   | [] => None
@@ -131,8 +143,9 @@ Definition create_mailbox_row (s : store) (name : str) (t : Z) : option (store *
     | Some _ => None
     | None =>
       let id := fresh_id (map mb_id (mboxes s)) in
-      Some (mkStore (mboxes s ++ [mkMbox id name t 1]) (links s) (next_msg s)
-                    (glog s) (gused s ++ [(name, t)]) (gser s), id)
+      let v := next_validity s t in
+      Some (mkStore (mboxes s ++ [mkMbox id name v 1]) (links s) (next_msg s)
+                    (glog s) (gused s ++ [(name, v)]) (gser s), id)
     end
   end.
 
@@ -254,11 +267,13 @@ Definition is_deleted (l : link) : bool := fmem DELETED_FLAG (lk_flags l).
 
 (** ---- initial store --------------------------------------------------------- *)
 
-(** db.createDefaultMailboxes on a new per-user database: five calls of
-    CreateMailboxPerUser, each reading the clock. *)
+(** a new per-user database, and db.createDefaultMailboxes on it: five mailbox
+    rows, each stamped by the allocator (nextUIDValidityPerUser) with its own
+    clock reading — the same steps as five calls of CreateMailboxPerUser *)
+Definition empty_store : store := mkStore [] [] 1 [] [] 1.
+Definition create_or_same (s : store) (n : str) (t : Z) : store :=
+  match create_mailbox_row s n t with Some (s', _) => s' | None => s end.
 Definition init5 (t1 t2 t3 t4 t5 : Z) : store :=
-  mkStore [mkMbox 1 INBOX t1 1; mkMbox 2 (S_ "Sent") t2 1; mkMbox 3 (S_ "Drafts") t3 1;
-           mkMbox 4 (S_ "Trash") t4 1; mkMbox 5 SPAM t5 1]
-          [] 1 []
-          [(INBOX, t1); (S_ "Sent", t2); (S_ "Drafts", t3); (S_ "Trash", t4); (SPAM, t5)] 1.
+  create_or_same (create_or_same (create_or_same (create_or_same (create_or_same empty_store
+    INBOX t1) (S_ "Sent") t2) (S_ "Drafts") t3) (S_ "Trash") t4) SPAM t5.
 Definition init (t : Z) : store := init5 t t t t t.
